@@ -35,61 +35,7 @@ def run(ctx):
         if not (len(a) == 3 and a[2].endswith("len(%s)" % a[1])):
             r2.violate("finish|flush-all", f"DispatcherDelegate::finish flushes {a[1:]} instead of (input, input.len())", dfin.loc())
 
-    # ------------------------------------------------------------------ R11.2
-    r = ctx.rule("R11.2", "what is flushed: after a failed parse(chunk) the same chunk; after a failed append(data) the buffered bytes then data; after a failed init_with(x) the same x; flush_for_bail_out starts at remaining_content_start, ignores emission_enabled and resets the offset", "E-MIR", floor=5)
-    for f, s, flush_b in sites:
-        # which failing operation dominates this site?
-        cand = []
-        for bi, t in f.calls(r"(Parser::parse|Arena::append|Arena::init_with)$"):
-            if f.dominates(bi, s):
-                cand.append((bi, t))
-        key = f"{f.key}|bail-site#{s}"
-        if not cand:
-            r.inst(key)
-            r.violate(key, f"{f.key}: bail-out site not dominated by parse/append/init_with", f.loc())
-            continue
-        # the closest dominating one
-        cand.sort(key=lambda x: len(f.dominators()[x[0]]))
-        bi, t = cand[-1]
-        op = callee_key(t)
-        args = [f.describe_operand(a) for a in t["args"]]
-        flushed = [f.describe_operand(f.blocks[b]["term"]["args"][1]) for b in flush_b]
-        # order flushes by dominance
-        fb = sorted(flush_b, key=lambda b: len(f.dominators()[b]))
-        flushed = [f.describe_operand(f.blocks[b]["term"]["args"][1]) for b in fb]
-        key = f"{f.key}|{op}"
-        r.inst(key, sample={"fn": f.key, "failed_op": op, "op_args": args, "flushed": flushed})
-        if op == "Parser::parse":
-            want = [args[1]]
-        elif op == "Arena::init_with":
-            want = [args[1]]
-        else:
-            want = [f"Arena::bytes({args[0]})", args[1]]
-        if flushed != want:
-            r.violate(key, f"{f.key}: after a failed {op}({', '.join(args[1:])}) the bail-out flushes {flushed}, expected {want} (bytes lost or duplicated)", f.loc())
-    ffb = mir.fn("Dispatcher::flush_for_bail_out")
-    r.inst("flush_for_bail_out|shape")
-    reads = sm.fields_read(ffb)
-    writes = sm.fields_written(ffb)
-    if "DispatcherDelegate.emission_enabled" in reads:
-        r.violate("flush_for_bail_out|emission", "flush_for_bail_out consults emission_enabled (bytes of content being removed would be lost on bail-out)", ffb.loc())
-    if "DispatcherDelegate.remaining_content_start" not in reads or "DispatcherDelegate.remaining_content_start" not in writes:
-        r.violate("flush_for_bail_out|offset", "flush_for_bail_out does not read and reset remaining_content_start", ffb.loc())
-    else:
-        # slice start must be remaining_content_start; written value must be the constant 0
-        gets = [t for bi, t in ffb.calls(r"slice::get|get\[SliceIndex\]|SliceIndex")]
-        ok = False
-        for bi, t in ffb.calls(r"get$"):
-            d = [ffb.describe_operand(a) for a in t["args"]]
-            if any("remaining_content_start" in x and "RangeFrom" in x for x in d):
-                ok = True
-        if not ok:
-            r.violate("flush_for_bail_out|range", "flush_for_bail_out no longer slices input[remaining_content_start..]", ffb.loc())
-        for f_, bi, st in mir.field_writes("DispatcherDelegate", "remaining_content_start"):
-            if f_ is ffb:
-                v = ffb.describe_operand(st["rv"]["o"]) if st["rv"]["k"] == "use" else "?"
-                if not v.startswith("const 0"):
-                    r.violate("flush_for_bail_out|reset", f"flush_for_bail_out resets remaining_content_start to {v}", ffb.loc())
+    rule_flush_operands(ctx, mir, sites=sites)
 
     # ------------------------------------------------------------------ R11.3
     r = ctx.rule("R11.3", "commit only after success: in try_produce_token_from_lexeme emit_chunk_before_lexeme dominates the token call, which dominates consume_lexeme; the token call's error edge returns without consume_lexeme", "E-MIR", floor=2)
@@ -232,3 +178,77 @@ def rule_flag_independence(ctx, idx, mir, rid="R11.4"):
         r.inst("readers:" + fld, sample={"field": fld, "readers": readers})
         if readers != ["TransformStream::should_bail_out_for"]:
             r.violate("readers:" + fld, f"TransformStream.{fld} is read by {readers}; only should_bail_out_for may decide on it", "src/transform_stream/mod.rs")
+
+
+class _NullRule:
+    rid = "-"
+    def inst(self, *a, **k): pass
+    def violate(self, *a, **k): pass
+    def count(self, *a, **k): pass
+    def control(self, *a, **k): pass
+    analysed = {}
+
+
+class _NullCtx:
+    def rule(self, *a, **k):
+        return _NullRule()
+
+
+def rule_flush_operands(ctx, mir, rid="R11.2", sites=None):
+    if sites is None:
+        _, sites = rule_bail_out_sites(_NullCtx(), mir)
+    # ------------------------------------------------------------------ R11.2
+    r = ctx.rule(rid, "what is flushed: after a failed parse(chunk) the same chunk; after a failed append(data) the buffered bytes then data; after a failed init_with(x) the same x; flush_for_bail_out starts at remaining_content_start, ignores emission_enabled and resets the offset", "E-MIR", floor=5)
+    for f, s, flush_b in sites:
+        # which failing operation dominates this site?
+        cand = []
+        for bi, t in f.calls(r"(Parser::parse|Arena::append|Arena::init_with)$"):
+            if f.dominates(bi, s):
+                cand.append((bi, t))
+        key = f"{f.key}|bail-site#{s}"
+        if not cand:
+            r.inst(key)
+            r.violate(key, f"{f.key}: bail-out site not dominated by parse/append/init_with", f.loc())
+            continue
+        # the closest dominating one
+        cand.sort(key=lambda x: len(f.dominators()[x[0]]))
+        bi, t = cand[-1]
+        op = callee_key(t)
+        args = [f.describe_operand(a) for a in t["args"]]
+        flushed = [f.describe_operand(f.blocks[b]["term"]["args"][1]) for b in flush_b]
+        # order flushes by dominance
+        fb = sorted(flush_b, key=lambda b: len(f.dominators()[b]))
+        flushed = [f.describe_operand(f.blocks[b]["term"]["args"][1]) for b in fb]
+        key = f"{f.key}|{op}"
+        r.inst(key, sample={"fn": f.key, "failed_op": op, "op_args": args, "flushed": flushed})
+        if op == "Parser::parse":
+            want = [args[1]]
+        elif op == "Arena::init_with":
+            want = [args[1]]
+        else:
+            want = [f"Arena::bytes({args[0]})", args[1]]
+        if flushed != want:
+            r.violate(key, f"{f.key}: after a failed {op}({', '.join(args[1:])}) the bail-out flushes {flushed}, expected {want} (bytes lost or duplicated)", f.loc())
+    ffb = mir.fn("Dispatcher::flush_for_bail_out")
+    r.inst("flush_for_bail_out|shape")
+    reads = sm.fields_read(ffb)
+    writes = sm.fields_written(ffb)
+    if "DispatcherDelegate.emission_enabled" in reads:
+        r.violate("flush_for_bail_out|emission", "flush_for_bail_out consults emission_enabled (bytes of content being removed would be lost on bail-out)", ffb.loc())
+    if "DispatcherDelegate.remaining_content_start" not in reads or "DispatcherDelegate.remaining_content_start" not in writes:
+        r.violate("flush_for_bail_out|offset", "flush_for_bail_out does not read and reset remaining_content_start", ffb.loc())
+    else:
+        # slice start must be remaining_content_start; written value must be the constant 0
+        gets = [t for bi, t in ffb.calls(r"slice::get|get\[SliceIndex\]|SliceIndex")]
+        ok = False
+        for bi, t in ffb.calls(r"get$"):
+            d = [ffb.describe_operand(a) for a in t["args"]]
+            if any("remaining_content_start" in x and "RangeFrom" in x for x in d):
+                ok = True
+        if not ok:
+            r.violate("flush_for_bail_out|range", "flush_for_bail_out no longer slices input[remaining_content_start..]", ffb.loc())
+        for f_, bi, st in mir.field_writes("DispatcherDelegate", "remaining_content_start"):
+            if f_ is ffb:
+                v = ffb.describe_operand(st["rv"]["o"]) if st["rv"]["k"] == "use" else "?"
+                if not v.startswith("const 0"):
+                    r.violate("flush_for_bail_out|reset", f"flush_for_bail_out resets remaining_content_start to {v}", ffb.loc())
